@@ -312,7 +312,7 @@ func main() {
 	for i := 0; i < n/2; i++ {
 		p := 1 + r.Intn(5)
 		t := g.Ty([]int{1, 1, 1, 2, 2, 3}[r.Intn(6)])
-		if t.IsScalar() {
+		if t.IsScalar() || valgen.PtrKeyed(t) {
 			continue
 		}
 		c := &cgen{g: g, proto: p}
